@@ -175,7 +175,12 @@ Verdict runFaults(const Target& tg, const std::vector<Fault>& faults, const File
 		run.nontriv(h);
 	}
 	const bool isSample = c.kind == "corpus";
-	ChildResult r = runIsolated([&]() { return childBody(faulty, isSample); }, run.replaying ? 40 : 20);
+	// once this process has seen a hang (reported, and confirmed separately by replays with the long
+	// limit) further hangs are only counted: a shorter limit keeps a tree that hangs often within the budget
+	static bool sawHang = false;
+	ChildResult r = runIsolated([&]() { return childBody(faulty, isSample); }, run.replaying ? 40 : sawHang ? 6 : 20);
+	if (r.timeout)
+		sawHang = true;
 	if (!r.ok && !isSample) {
 		// Synthesised blocks carry arbitrary, internally inconsistent tables: only failures that the
 		// unfaulted file does not show are attributed to the reference fault.
